@@ -508,7 +508,7 @@ Definition lsame_but_options (a b : lbuilder) : Prop :=
   lb_ctor a = lb_ctor b /\ lb_factories a = lb_factories b.
 
 (* ---------------------------------------------------------------- everything about one case in one number
-   1 mismatch  2 interference  4 in claim  8 WT fails  16 frame fails  32 contract fails
+   1 mismatch (with the model as the code runs AND with the model on unshared data)  2 interference  4 in claim  8 WT fails  16 frame fails  32 contract fails
    64 single-rule run  128 something is selected and some builder has two or more options
    256 the rule files load  512 the unshared model differs from the implementation
    1024 duplicate as last rule: copy differs  2048 compose as last builder rule: wrong discriminator *)
@@ -519,7 +519,9 @@ Definition ven_code (c : vcase) : nat :=
   let run := apply_to_l true (c_ss c) (c_files c) (c_lang c) (c_before c) in
   let out := match run with Ok o => Ok (erase_builders (fst o)) | Err e => Err e | Panic w => Panic w | OutOfFuel => OutOfFuel end in
   let itf := match run with Ok o => snd o | _ => false end in
-  bit (negb (res_eqb cmp out (c_after c))) 1 + bit itf 2 + bit (in_claim c) 4 + bit (pf_wt c) 8 + bit (pf_frame c) 16 +
+  (* the implementation must agree with the code as it runs (shared cells) or, where a write reached a
+     sharer, with the same rules on unshared data (what a repaired implementation computes) *)
+  bit (negb (res_eqb cmp out (c_after c)) && (negb itf || ven_mismatch_unshared c)) 1 + bit itf 2 + bit (in_claim c) 4 + bit (pf_wt c) 8 + bit (pf_frame c) 16 +
   bit (pf_contract c) 32 + bit (ven_single c) 64 +
   bit (ven_selects c && existsb (fun b => Nat.leb 2 (List.length (b_options b))) (c_before c)) 128 +
   bit (match rewriter_from (c_files c) with Ok _ => true | _ => false end) 256 +
@@ -534,3 +536,12 @@ Definition model_builder_members : list string :=
 Definition model_option_members : list string :=
   ["omit"; "rename"; "rename_arguments"; "unfold_boolean"; "struct_fields_as_arguments"; "struct_fields_as_options";
    "array_to_append"; "map_to_index"; "disjunction_as_options"; "duplicate"; "add_assignment"; "add_comments"].
+
+(* the shape of an option as FromAST derives it: one argument, one assignment of that argument,
+   no envelope, no index, to a path ending in the argument's type *)
+Definition derived_shape (o : loption) (a : argument) (first : lassignment) : Prop :=
+  lo_args o = [a] /\ lo_assignments o = [first] /\ (exists l, la_arg first = Some (l, a)) /\ la_env first = None /\
+  la_constraints first = [] /\ path_args (la_path first) = [] /\
+  exists it, last_item (la_path first) = Some it /\ pi_type it = a_type a /\ pi_typehint it = None.
+Definition lopt_wt (ss : schemas) (root : ty) (o : loption) : bool :=
+  forallb (fun a => assignment_ok ss root (lo_args o) (erase_asg a)) (lo_assignments o).
